@@ -225,7 +225,9 @@ func actionCodeReplaceTs(vnode *parser.RootVistor,
 	}
 	strComment = fmt.Sprintf(strComment,
 		fmt.Sprintf("%s -> %s\n %s\n",
-			leftPartString, rightPartString, oneRule.ActionCode))
+			leftPartString, rightPartString,
+			// the action is quoted inside a block comment: a comment end in it must not close that block
+			strings.ReplaceAll(oneRule.ActionCode, "*/", "* /")))
 
 	str := oneRule.ActionCode
 	str = strings.ReplaceAll(str, "$$",
